@@ -1,13 +1,13 @@
 package props
 
 import (
-	"go/token"
-	"golibcheck/internal/paths"
-	"go/constant"
 	"fmt"
-	"math"
 	"go/ast"
+	"go/constant"
+	"go/token"
 	"go/types"
+	"golibcheck/internal/paths"
+	"math"
 	"strings"
 
 	"golibcheck/internal/bits"
@@ -410,8 +410,14 @@ func c05Frame(p *core.Program, r *core.Report, rule string, optsOnly bool) {
 			}
 		}
 		fresh := strings.HasPrefix(lastArg, "make(") || lastArg == "t"
-		r.Check(copied && fresh && got == want && want != "", rule, "io.(*DataOutputX).WriteHeader layout", p.Pos(wh.Decl.Pos()),
-			"copies the body, resets, then "+want+"(copy)", fmt.Sprintf("header is emitted as %q (body copied before reset: %v, length-prefixed copy appended: %v); want %q", got, copied, fresh, want))
+		if got != want && strings.Contains(got, "WriteBytes(") {
+			// the header is assembled in a byte buffer and written at once: this rule reads the header
+			// as a sequence of typed writes and cannot see into the buffer
+			r.Undec(rule, "io.(*DataOutputX).WriteHeader layout", p.Pos(wh.Decl.Pos()), fmt.Sprintf("header is emitted as %q: assembled in a buffer, not decided by this rule", got))
+		} else {
+			r.Check(copied && fresh && got == want && want != "", rule, "io.(*DataOutputX).WriteHeader layout", p.Pos(wh.Decl.Pos()),
+				"copies the body, resets, then "+want+"(copy)", fmt.Sprintf("header is emitted as %q (body copied before reset: %v, length-prefixed copy appended: %v); want %q", got, copied, fresh, want))
+		}
 	}
 	md := p.Method("net/oneway", "OneWayTcpClient", "makeData")
 	if md == nil {
